@@ -636,7 +636,9 @@ func (cc *Conn) AsyncPing(receivedPong func()) (func(), error) {
 	if _, loaded := cc.midHandlerContainer.LoadOrStore(mid, &midElement{
 		handler: func(_ *responsewriter.ResponseWriter[*Conn], r *pool.Message) {
 			if r.Type() == message.Reset || r.Type() == message.Acknowledgement {
-				receivedPong()
+				// not on this goroutine: it reads the connection, and the callback may issue a request whose
+				// answer has to be read while the callback waits
+				go receivedPong()
 			}
 		},
 		start:    time.Now(),
